@@ -172,6 +172,14 @@ RefsOf(t) ==
     [] t.c = "struct" -> UNION {RefsOf(t.f[i].t) : i \in 1..Len(t.f)}
     [] OTHER -> {}
 
+\* does a type contain an anonymous struct or enum (a string set `[string]()` is not one)
+RECURSIVE HasAnon(_)
+HasAnon(t) ==
+  CASE t.c \in {"struct", "enum"} -> TRUE
+    [] t.c = "dict" -> IF t.e.c = "struct" /\ t.e.f = <<>> THEN FALSE ELSE HasAnon(t.e)
+    [] t.c \in {"arr", "opt"} -> HasAnon(t.e)
+    [] OTHER -> FALSE
+
 MemberNames(ms, kind) == {ms[i].n : i \in {j \in 1..Len(ms) : ms[j].k = kind}}
 
 \* names defined more than once across methods, types and errors
